@@ -1,1 +1,78 @@
-(* placeholder *)
+(* C11 -- CURIE-prefix remapping renames records without losing information.
+   The model follows the code: _order_curie_remapping (three duplicate checks, sorted() shortcut, layered topological
+   ordering) and the main loop on the records of a private copy, reading the ORIGINAL synonym index and scanning the
+   CURRENT records.  swf c: c is a consistent strict converter; NoDup (map fst m): m is a dictionary.
+   frame_of r = (uri_prefix, uri_prefix_synonyms, pattern). *)
+From Coq Require Import Permutation.
+From Curies.model Require Import Str PyData Trie Conv Query Val Answer Spec CheckQ Mutate Reconcile.
+From Curies.proofs Require Import StrFacts IndexFacts QueryFacts C04Facts MutateFacts ReconcileFacts CurieFacts.
+
+(* either one of the documented errors, or a strict converter of the same size whose records keep exactly their URI
+   side, in which every CURIE prefix known before is still known *)
+Theorem C11_main : forall c m, swf c -> NoDup (map fst m) ->
+  (exists e, remap_curie_prefixes c m = Raise e /\ documented e) \/
+  (exists R rs, remap_curie_prefixes c m = Val R /\ recs R = sort_records rs /\ swf R /\
+     length rs = length (recs c) /\
+     Permutation (map frame_of rs) (map frame_of (recs c)) /\
+     (forall p, (exists r, In r (recs c) /\ In p (all_prefixes r)) -> exists r', In r' rs /\ In p (all_prefixes r'))).
+Proof. exact remap_curie_main. Qed.
+Print Assumptions C11_main.
+
+(* the ordering: only documented errors; a permutation of the remapping; a pair a->b precedes every pair k->a *)
+Theorem C11_order_errors : forall c m e, order_curie_remapping c m = Raise e -> documented e.
+Proof. exact order_errors. Qed.
+Print Assumptions C11_order_errors.
+Theorem C11_order_perm : forall c m ordering, order_curie_remapping c m = Val ordering -> Permutation ordering m.
+Proof. exact order_perm. Qed.
+Print Assumptions C11_order_perm.
+Theorem C11_order_topological : forall c m ordering, NoDup (map fst m) -> order_curie_remapping c m = Val ordering ->
+  forall a b k, In (a, b) m -> In (k, a) m -> (k, a) <> (a, b) -> exists l1 l2, ordering = l1 ++ (a, b) :: l2 /\ In (k, a) l2.
+Proof. exact order_topo. Qed.
+Print Assumptions C11_order_topological.
+
+(* the loop invariant: URI side and size fixed, strictness kept by every step, nothing lost except names waiting for
+   the applicable pair that takes them over *)
+Theorem C11_invariant : forall c m ordering, swf c -> NoDup (map fst m) -> order_curie_remapping c m = Val ordering ->
+  forall pre rem, ordering = pre ++ rem ->
+  let cur := fold_left (step_cur c m (inter (map fst m) (map snd m))) pre (cur0 c) in
+  Frame (recs c) cur /\ Strict cur /\
+  forall p, knownc (cur0 c) p -> knownc cur p \/ exists k, In (k, p) rem /\ std c k <> None.
+Proof. exact none_lost_fold. Qed.
+Print Assumptions C11_invariant.
+
+(* one pair old->new: applied when old is known and new unused in the current records; skipped otherwise *)
+Theorem C11_applied : forall c m inter cur old new orig rc, std c old = Some orig ->
+  List.find (fun or : str * record => str_eqb (fst or) orig) cur = Some (orig, rc) -> cur_get_record cur new = None ->
+  step_cur c m inter cur (old, new) = set_cur orig (renamed rc old new (handover_cond c m inter old)) cur /\
+  r_prefix (renamed rc old new (handover_cond c m inter old)) = new.
+Proof. exact pair_applied. Qed.
+Print Assumptions C11_applied.
+Theorem C11_skipped_unknown : forall c m inter cur old new, std c old = None -> step_cur c m inter cur (old, new) = cur.
+Proof. exact pair_skipped_unknown. Qed.
+Print Assumptions C11_skipped_unknown.
+Theorem C11_skipped_clash : forall c m inter cur old new orig o2 x2, std c old = Some orig ->
+  cur_get_record cur new = Some (o2, x2) -> o2 <> orig -> step_cur c m inter cur (old, new) = cur.
+Proof. exact pair_skipped_clash. Qed.
+Print Assumptions C11_skipped_clash.
+(* old names become synonyms, unless handed over to the record of an applicable pair *)
+Theorem C11_old_names_kept : forall rc old new h x, In x (all_prefixes rc) -> x <> old \/ h = false \/ old = new ->
+  In x (all_prefixes (renamed rc old new h)).
+Proof. exact renamed_keeps. Qed.
+Print Assumptions C11_old_names_kept.
+
+(* the pre-repair hand-over branch lost prefixes (defect D4): dropping `old` unconditionally and not keeping the previous
+   canonical prefix.  Witness: record b, remapping {a->b, b->c} with a unknown. *)
+Definition r (p u : str) ps us := {| r_prefix := p; r_uri := u; r_psyn := ps; r_usyn := us; r_pat := None |}.
+Example C11_nonvacuous :
+  (exists c, mk_conv true [58] [r [120] [104] [[98]] []; r [97] [105] [] []] = Val c /\
+    (* x(syn b), a with {a->b, b->c}: b is handed over to a's record, x keeps its name as a synonym of c (defect D4 lost x) *)
+    (exists R, remap_curie_prefixes c [([97], [98]); ([98], [99])] = Val R /\
+       recs R = [r [98] [105] [[97]] []; r [99] [104] [[120]] []]) /\
+    remap_curie_prefixes c [([97], [120]); ([120], [97])] = Raise ECycleDetected /\
+    (* two pairs onto the same unknown name: the first is applied, the second skipped *)
+    (exists R, remap_curie_prefixes c [([97], [122]); ([120], [122])] = Val R /\
+       recs R = [r [120] [104] [[98]] []; r [122] [105] [[97]] []]))%N.
+Proof.
+  eexists. split; [vm_compute; reflexivity|]. split; [eexists; split; vm_compute; reflexivity|]. split; [vm_compute; reflexivity|].
+  eexists; split; vm_compute; reflexivity.
+Qed.
